@@ -572,9 +572,34 @@ pub fn run(session: &Session, prop: &'static Soundness) -> i32 {
             cases.push(json!({"kind": "program", "text": format!("x := [{arg}, {other}][*(mut int 0)]; w := () -> any {{ {body} }}; w()")}));
         }
     }
+    // a callee known only as a union of function types: the call is checked against every member (the
+    // argument must fit the parameter of each), for parameters that are structs of different widths,
+    // tuples of different lengths, arrays, cells, functions
+    for (m1, m2, arg, other) in [
+        ("(s: struct{a: int}) -> int { return s.a; }", "(s: struct{a: int, b: int}) -> int { return s.a + s.b; }", "struct{a := 1}", "struct{a := 1, b := 2}"),
+        ("(s: struct{a: int, c: string}) -> int { return s.a; }", "(s: struct{a: int, b: int}) -> int { return s.b; }", "struct{a := 1, c := \"s\"}", "struct{a := 1, b := 2, c := \"s\"}"),
+        ("(t: (int, int)) -> int { return t.1; }", "(t: (int, int, int)) -> int { return t.2; }", "(1, 2)", "(1, 2, 3)"),
+        ("(a: [int]) -> int { return a[0]; }", "(a: [int|string]) -> int { return std.len(a); }", "[1]", "[1, \"s\"]"),
+        ("(c: mut int) -> int { return *c + 1; }", "(c: mut (int|string)) -> int { c = \"s\"; return 0; }", "mut 1", "mut int|string 1"),
+        ("(f: (int) -> int) -> int { return f(1); }", "(f: (string) -> int) -> int { return f(\"s\"); }", "(x: int) -> int { return x; }", "(x: int|string) -> int { return 1; }"),
+        ("(x: int|string) -> int { return 1; }", "(x: int|float) -> int { return 2; }", "1", "2.5"),
+    ] {
+        for (pick, value) in [("true", arg), ("false", arg), ("true", other), ("false", other)] {
+            cases.push(json!({"kind": "near-miss", "text": format!("f1 := {m1}; f2 := {m2}; g := if *(mut bool {pick}) {{ f1 }} else {{ f2 }}; g({value})")}));
+            cases.push(json!({"kind": "near-miss", "text": format!("f1 := {m1}; f2 := {m2}; call := (g: any) -> any {{ if h: ({}) -> int | ({}) -> int = g {{ return h({value}); }} return 0; }}; call(if *(mut bool {pick}) {{ f1 }} else {{ f2 }})", m1.split(") ->").next().unwrap_or("").split(": ").nth(1).unwrap_or("any"), m2.split(") ->").next().unwrap_or("").split(": ").nth(1).unwrap_or("any"))}));
+        }
+    }
     let sequences = import_sequences();
     session.set_extra("import_sequence_cases", json!(sequences.len()));
     cases.extend(sequences);
+    if prop.id == "C02" {
+        // programs that print while stdout refuses writes (child processes of the harness, see C18)
+        for mode in ["full", "broken-pipe", "read-only"] {
+            if !session.stopped() {
+                session.run_one(&crate::props::c18::C18, &json!({"kind": "stdout-fault", "mode": mode}));
+            }
+        }
+    }
     // every pure std function applied to parameters of the catalogue types: the declared result
     // type is what the checker believes about the call
     let small: Vec<usize> = CATALOGUE
